@@ -16,7 +16,12 @@ pub struct Rng {
 /// by Knuth and H. W. Lewis.
 impl Rng {
     pub fn new(seed: u64) -> Self {
-        Rng { seed }
+        // Every later state is reduced modulo MODULUS anyway; reducing the
+        // initial seed too keeps the first step from overflowing a u64 and
+        // keeps RND(0) in range before the first positive call.
+        Rng {
+            seed: seed % MODULUS,
+        }
     }
 
     pub fn random(&mut self) -> f64 {
